@@ -41,7 +41,7 @@ def posOf (text : Array Nat) (i : Nat) : TSPoint := Id.run do
   let mut row := 0
   let mut col := 0
   for k in [0:i] do
-    if text[k]! == 10 then
+    if text.getD k 0 == 10 then
       row := row + 1
       col := 0
     else
@@ -67,7 +67,7 @@ def Stats.bad (s : Stats) (msg : String) : Stats :=
 
 def sliceEq (t1 : Array Nat) (a1 : Nat) (t2 : Array Nat) (a2 : Nat) (n : Nat) : Bool := Id.run do
   for k in [0:n] do
-    if t1[a1 + k]! != t2[a2 + k]! then return false
+    if t1.getD (a1 + k) 256 != t2.getD (a2 + k) 257 then return false
   return true
 
 mutual
